@@ -406,6 +406,7 @@ func init() {
 		if ch == nil {
 			panic("romenu: check " + id + " not registered yet")
 		}
+		ch.Rule += "; additionally every call of this property from the write-protection menu is executed with its read-only arguments in mprotect'ed pages: a store into a caller-supplied input — transient, restoring or same-value — faults deterministically and is a violation (<id>.input_write)"
 		orig := ch.Units
 		ch.Units = func(ctx *core.Ctx) []core.Unit {
 			us := orig(ctx)
